@@ -48,6 +48,12 @@ CHECKS = {
     "C19": dict(engine="e1-conform", technique="bounded-exhaustive enumeration of traced parses with a recording ParseTracer; nesting, outcomes and (without memo) the exact event sequence compared with the reference",
                 text="A quarter of the C01 trees plus the memo, left-recursive and hook families: result with the recording tracer and with parse_with_trace equals the plain result, events are properly nested with the reference's outcome per (rule, offset), and for grammars without memo/leftrec the whole event sequence equals the reference's.",
                 ref="§3 C19"),
+    "C15": dict(engine="tools-c15", technique="bounded-exhaustive enumeration of grammar texts (all token strings up to a length, all single-token mutations of corpus grammars, a restriction catalogue in every context) through the real front end + code generator in crash-isolated workers; CLI and Compile exit paths compared with the library answer",
+                text="Every string of up to 4 (thorough: 5) tokens over a 22-token alphabet, every delete/duplicate/replace mutation of ~50 (thorough: ~240) corpus grammars with a 40-token menu, and a catalogue that places a violation of each documented restriction in every context under every derive set: the library answers with code or an error value (a worker that panics, aborts or stalls is pinned to the text through a progress file), catalogue entries are rejected, must-accept entries are accepted, and the exit status of peginator-cli, Compile::run and run_exit_on_error agrees with the library answer.",
+                ref="§3 C15", note="Trusted: the worker isolation (progress file, 20 s stall watchdog), the catalogue as a faithful reading of the documented restrictions. Not judged: whether accepted code compiles (C03)."),
+    "C18": dict(engine="tools-c18", level="model_checking", technique="explicit-state breadth-first search over build-script histories to the fixpoint of the reachable state set; every run transition executed by the real Compile on a real directory",
+                text="States (grammar content, prefix, destination bytes) per mode - file mode with explicit/default destination, with rustfmt, directory mode with two files - are explored breadth-first to a fixpoint (quick: 1746 runs over 1746 reachable states and 15098 transitions); after every run the destination must be header+prefix+code of the current grammar, an up-to-date destination must keep bytes and mtime, a failing run must leave destinations untouched (other files of a directory run: untouched or complete).",
+                ref="§3 C18", note="Trusted: the library route (generate_source_header, Grammar::from_str, generate_code) as the definition of the expected file; token-wise comparison after the comment header. Outside the alphabet: CRC collisions, concurrent runs, missing rustfmt, derive/user-context changes."),
 }
 
 NOT_YET = {}
